@@ -1,5 +1,6 @@
 import PlzVerif.Base.Proto
 import PlzVerif.Model.CASFS
+import PlzVerif.Generated.C29
 open PlzVerif PlzVerif.CASFS PlzVerif.Proto
 open PlzVerif.Cmd (Str pathClean pathJoin)
 
@@ -120,8 +121,10 @@ def parseTree (s : String) : Option Dir :=
 
 def infoStr (i : Info) : String := s!"{hx i.name}:{i.kind}:{i.size}:{i.perm}"
 
-def entriesStr (es : List Info) : String :=
-  (if es.isEmpty then "_" else ",".intercalate (es.map infoStr)) ++ "!nil"
+def entriesStrE (es : List Info) (eof : Bool) : String :=
+  (if es.isEmpty then "_" else ",".intercalate (es.map infoStr)) ++ (if eof then "!eof" else "!nil")
+
+def entriesStr (es : List Info) : String := entriesStrE es false
 
 def symlinkCount : Nat → Dir → Nat
   | 0, _ => 0
@@ -130,7 +133,7 @@ def symlinkCount : Nat → Dir → Nat
 def step (line : String) : String :=
   match line.splitOn " " with
   | [op, tree, wd, path] =>
-    if op = "opage" then "-" else
+    if op = "opage" || op = "onodew" || op = "onodec" then "-" else
     if op = "onode" || op = "olist" || op = "otestfs" then "bad-op" else
     match parseTree tree, unhx wd, unhx path with
     | some root, some wd, some path =>
@@ -148,10 +151,11 @@ def step (line : String) : String :=
         | none => "notexist"
         | some i => infoStr i
       else if op = "open" then
-        match (if cd then openCD root (symlinkCount tree.length root + 2) wd path
-               else openFS root (symlinkCount tree.length root + 2) wd path) with
+        match openWith Generated.C29.openDepthLimit root (symlinkCount tree.length root + 2)
+            (pathJoin [if cd then wd else pathClean wd, path]) with
         | .notExist => "notexist"
         | .absLink => "abslink"
+        | .tooManyLinks => "toomany"
         | .outOfFuel => "crash"
         | .file f => "file:" ++ infoStr (fileInfo f) ++ ";" ++ toString f.blob
         | .dir n d => "dir:" ++ infoStr (dirInfo n d) ++ ";" ++ entriesStr (readDir d (-1))
@@ -160,12 +164,15 @@ def step (line : String) : String :=
   | ["readdir", tree, wd, path, n, k] =>
     match parseTree tree, unhx wd, unhx path, n.toInt?, k.toNat? with
     | some root, some wd, some path, some n, some k =>
-      match openFS root (symlinkCount tree.length root + 2) wd path with
+      match openWith Generated.C29.openDepthLimit root (symlinkCount tree.length root + 2) (pathJoin [pathClean wd, path]) with
       | .notExist => "notexist"
       | .absLink => "abslink"
+      | .tooManyLinks => "toomany"
       | .outOfFuel => "crash"
       | .file _ => "notdir"
-      | .dir _ d => "/".intercalate ((List.range k).map fun _ => entriesStr (readDir d n))
+      | .dir _ d => "/".intercalate ((List.range k).map fun i =>
+          let r := readDirCall Generated.C29.readDirHasOffset d n i
+          entriesStrE r.1 r.2)
     | _, _, _, _, _ => "bad-op"
   | ["onode", _, _] => "-"
   | ["olist", _, _] => "-"
